@@ -292,11 +292,16 @@ func (tc *treeCase) genPool(rootP *parsed) ([]*poolCh, []string) {
 		}
 		author := tc.pickAuthor()
 		snap := tc.rootId
+		if len(goodAll) > 1 && r.Chance(4) {
+			// a writer-signed change whose snapshot id names an ordinary (non-snapshot) change
+			snap = goodAll[1+r.Intn(len(goodAll)-1)]
+			r.Count("pool.foreign-snapshot")
+		}
 		raw := tc.buildChange(author, tc.pickRecord(minIdx, false), prev, snap)
 		p := tc.parseRaw(raw.id, raw.body, tc.rootId)
 		p.label = "valid"
 		pc := &poolCh{raw: raw, p: p}
-		if ok, _ := tc.authentic(p, goodEnv); ok {
+		if ok, _ := tc.authentic(p, goodEnv); ok && snap == tc.rootId {
 			pc.good = true
 			goodEnv[p.id] = p
 			goodAll = append(goodAll, p.id)
